@@ -164,7 +164,7 @@ pub struct CommandLine {
 
 impl Command {
     pub fn from_tokens(tokens: Tokens) -> Result<Command, String> {
-        let mut tokens_new = tokens.clone();
+        let mut tokens_new = split_glued_input_redirections(&tokens);
         let mut redirects_from_type = String::new();
         let mut redirects_from_value = String::new();
         let mut has_redirect_from = tokens_new.iter().any(|x| x.0.is_empty() && (x.1 == "<" || x.1 == "<<<"));
@@ -331,6 +331,24 @@ fn split_tokens_by_pipes(tokens: &[Token]) -> Vec<Tokens> {
     }
     cmds.push(cmd.clone());
     cmds
+}
+
+/// `<file` and `<<<word` written without a space after the operator are
+/// taken apart into the operator and its operand.
+fn split_glued_input_redirections(tokens: &Tokens) -> Tokens {
+    let mut result = Vec::new();
+    for (sep, text) in tokens.iter() {
+        if sep.is_empty() && text.len() > 3 && text.starts_with("<<<") {
+            result.push((String::new(), "<<<".to_string()));
+            result.push((String::new(), text[3..].to_string()));
+        } else if sep.is_empty() && text.len() > 1 && text.starts_with('<') && !text.starts_with("<<") {
+            result.push((String::new(), "<".to_string()));
+            result.push((String::new(), text[1..].to_string()));
+        } else {
+            result.push((sep.clone(), text.clone()));
+        }
+    }
+    result
 }
 
 fn drain_env_tokens(tokens: &mut Tokens) -> HashMap<String, String> {
